@@ -155,4 +155,38 @@ CHECKS = {
                 "Non-trivial = judged pair with >=1 finding; distinct by (pair, DER).",
         "assumptions": COMMON_ASSUME + ["'same content' = CN empty/IP/in SAN; exactly one SAN and one IAN extension with identical values; RawSubject == RawIssuer"],
     },
+    "C05": {
+        "legs": legs_simple("props", "^TestC05$", 14, 16),
+        "tools": [{"pkg": "cmd/oneshot", "name": "oneshot", "env": "VERIF_ONESHOT", "cgo": False}],
+        "rule": "(1) repetition: corpus (enumerated) and rapid-generated objects/registries linted R times (12 quick / 40 thorough) on fresh parses, plus directed shapes prone to "
+                "map-iteration order (several duplicated extensions, several EV .onion names); (2) rapid state machine: lint / filter / re-set configuration over 2-5 generated objects "
+                "and up to 4 registries, re-using parsed objects, against a memo of the first verdict; (3) read-only: reflect walk over every exported field of the linted object vs an "
+                "unlinted twin; (4) a bundle of corpus + generated objects linted in a fresh process (oneshot, CGO off) - digests must equal the in-process ones under rapid-generated "
+                "environments (TZ, LANG, HOME, TMPDIR, unrelated variables, cwd, empty env) - and under strace -f: no file, network, process or descriptor I/O system call may start "
+                "inside the marked lint window. Non-trivial = object with >=1 finding carrying details (distinct by case hash), a history of >=3 steps over >=2 registries, or an environment.",
+        "assumptions": COMMON_ASSUME + ["reads/writes on the Go runtime's own eventfd/pipe wake-up descriptors are not I/O of the linted code",
+                                         "os.Getenv is not a system call: it is attacked through environment perturbation only",
+                                         "I/O freedom is observed on executed paths only"],
+    },
+    "C10": {
+        "legs": lambda tier: [{"pkg": "racecheck", "run": "^TestC10$", "shards": 12 if tier == "quick" else 16, "race": True, "timeout": 900 if tier == "quick" else 7200}],
+        "maxpar": 8,
+        "rule": "rapid programs: 2-16 goroutines x 5-40 operations from {Lint*Ex on an own fresh parse against a shared registry, Filter, Names, Sources, ByName/BySource/Lints per kind, "
+                "WriteJSON, GetConfiguration, DefaultConfiguration}; shared registries = global + 1-3 generated filtered ones; 6-24 objects per program (corpus walked round-robin so every "
+                "lint body the corpus reaches runs concurrently, generated certificates, CRLs, OCSP); start barrier, generated Gosched points; each program executed 3 times; shards run "
+                "under GOMAXPROCS 1/2/4/16. Monitors: Go race detector (any report), panics, 180 s deadlock watchdog; oracle: every concurrent lint digest equals the memoised "
+                "sequential digest. Non-trivial = program with >=2 mostly-linting goroutines and >=1 other goroutine; distinct by operation lists.",
+        "assumptions": ["SetConfiguration / Register* concurrent with linting are outside the stated guarantee and not generated",
+                        "schedules are sampled; the race detector reports an unsynchronised shared access whenever both accesses execute in one run"],
+    },
+    "C15": {
+        "legs": legs_simple("props", "^TestC15$", 14, 16),
+        "needs_cli": True,
+        "rule": "rapid invocations of the real cmd/zlint binary built from the working tree: 1-4 inputs (generated certificates, corpus CRLs) x encoding (PEM plain / leading text / CRLF, DER, "
+                "base64 plain / wrapped / trailing newline) x delivery (neutral file + -format, .pem/.der suffix overriding, stdin, '-') x generated selection flags and config file x output "
+                "(default, -pretty, -summary, -longSummary); bad cases: undecodable bytes, truncated DER, bad base64, wrong PEM type, mismatching suffix, unknown names/sources/regexp/profile/"
+                "format/config path. Oracle: exit status, one result object (or table) per decodable leading input, equal to the in-process library result for the same selection; summary "
+                "counts equal result counts per level. Non-trivial = invocation with a selection flag or a non-PEM first input; distinct by whole invocation.",
+        "assumptions": ["a .pem/.der suffix overrides -format; neutral files are named *.bin", "CRLs are only accepted in PEM armor"],
+    },
 }
